@@ -19,7 +19,7 @@ from mosromgr.mostypes import RunningOrder
 DEFAULT_KINDS = [k for k in build.ALL_KINDS if k != 'roDelete']
 
 
-def live_step(ro, msg_xml, history, as_bytes=False):
+def live_step(ro, msg_xml, history, as_bytes=False, route=None):
     """Like drive.eval_step but on a live running-order object."""
     ev = drive.StepEval()
     before = str(ro)
@@ -29,19 +29,26 @@ def live_step(ro, msg_xml, history, as_bytes=False):
     ev.msg = model.Msg(msg_xml)
     ev.state = xmlcmp.state_of(ET.fromstring(before))
     ev.ex = model.expect(ev.state, ev.msg)
-    ev.obs = step.run_step(before, msg_xml.encode('utf-8') if as_bytes else msg_xml, ro_obj=ro)
+    # half of the steps of a history (chosen by the message text, so replays agree) go through
+    # msg.merge(ro) instead of ro += msg: anything the running order caches must not care
+    from .findings import h64
+    ev.obs = step.run_step(before, msg_xml.encode('utf-8') if as_bytes else msg_xml, ro_obj=ro,
+                           via_merge=(h64(msg_xml) % 2 == 0) if route is None else (route == 'merge'))
     if ev.obs.parse_exc is None and ev.msg.kind is not None and ev.obs.cls_name != ev.msg.kind:
         ev.ex = model.Expect()
         ev.ex.note = 'class-mismatch'
     return ev
 
 
-def replay_history(hist, as_bytes=False):
-    """Yield a StepEval per message of the history (fresh live object)."""
+def replay_history(hist, as_bytes=False, routes=None):
+    """Yield a StepEval per message of the history (fresh live object).  routes: optional
+    {message text: 'merge' | 'add'} overriding the hash-chosen route of a step."""
     ro = RunningOrder.from_string(hist[0].encode('utf-8') if as_bytes else hist[0])
     done = [hist[0]]
     for msg_xml in hist[1:]:
-        ev = live_step(ro, msg_xml, done, as_bytes=as_bytes)
+        ev = live_step(ro, msg_xml, done, as_bytes=as_bytes, route=(routes or {}).get(msg_xml))
+        if routes:
+            ev.case['routes'] = routes
         done.append(msg_xml)
         if ev.obs.ro is not None:
             ro = ev.obs.ro
@@ -54,7 +61,7 @@ def rejudge_history(case, modname):
     if case.get('logging') == 'debug' and not drive.DEBUG_LOGGING:
         with drive.debug_logging():
             return rejudge_history(case, modname)
-    for ev in replay_history(case['history'], case.get('as_bytes', False)):
+    for ev in replay_history(case['history'], case.get('as_bytes', False), case.get('routes')):
         fails += mod.judge(ev)
     return fails
 
